@@ -179,7 +179,7 @@ func match(want, got Value, ordered bool, path string) error {
 	switch want.K {
 	case '#':
 		if want.Lit == "" {
-			if want.NT != got.NT || want.NBits != got.NBits || want.NFlag != got.NFlag {
+			if want.NT != got.NT || want.NBits != got.NBits || (want.NFlag != got.NFlag && want.NFlag != 99 && got.NFlag != 99) {
 				return fmt.Errorf("%s: number %s != %s", path, want, got)
 			}
 			return nil
